@@ -126,6 +126,34 @@ macro_rules! field_checks {
                             $st.violation(Violation { sig: format!("method to_exp/signum {tn} special values"), case: json!({"type": tn, "x": parts_to_json(&px)}), what: format!("to_exp({re:e}) = ({:e}, {:e}), signum = {:e}; the float methods give ({:e}, {:e}) and {:e}", m.re() as f64, sg.re() as f64, sn as f64, mf as f64, sf as f64, snf as f64) });
                         }
                     }
+                    // the sign methods at zero and at infinite real parts: the result is the operand
+                    // itself or its negation, with the operand's own derivative parts (a product with
+                    // a sign factor would turn them into NaN at an infinite real part)
+                    if dv == 0.75 && !re.is_nan() {
+                        let neg = xf.is_sign_negative();
+                        let two: D = <D as From<F>>::from(2.0 as F);
+                        let mzero: D = <D as From<F>>::from(-0.0 as F);
+                        let items: [(&str, D, bool); 6] = [
+                            ("abs", ComplexField::abs(x.clone()), neg),
+                            ("modulus", ComplexField::modulus(x.clone()), neg),
+                            ("norm1", ComplexField::norm1(x.clone()), neg),
+                            ("copysign(2)", RealField::copysign(x.clone(), two), neg),
+                            ("copysign(-0.0)", RealField::copysign(x.clone(), mzero), !neg),
+                            ("simd_abs", simba::simd::SimdComplexField::simd_abs(x.clone()), neg),
+                        ];
+                        for (m, got, flip) in items {
+                            $st.evaluations += 1;
+                            let g = <D as Subject<F>>::parts(&got, d);
+                            let sgn = if flip { -1.0 as F } else { 1.0 as F };
+                            let ok = (0..l.nslots()).all(|k| {
+                                let (u, w) = (g.alpha(l, k), sgn * px.alpha(l, k));
+                                if k == 0 { u.to_bits() == w.to_bits() } else { u == w }
+                            });
+                            if !ok {
+                                $st.violation(Violation { sig: format!("method {m} {tn} special values"), case: json!({"type": tn, "x": parts_to_json(&px)}), what: format!("{m} at real part {re:e}: parts {:?}, expected the operand's own parts{}", g.vals.iter().map(|v| *v as f64).collect::<Vec<_>>(), if flip { " negated" } else { "" }) });
+                            }
+                        }
+                    }
                     if ComplexField::is_finite(&x) != xf.is_finite() || RealField::is_sign_positive(&x) != xf.is_sign_positive() || RealField::is_sign_negative(&x) != xf.is_sign_negative() {
                         $st.violation(Violation { sig: format!("method predicates {tn} special values"), case: json!({"type": tn, "x": parts_to_json(&px)}), what: format!("is_finite / is_sign_* not decided by the real part {re:e} (derivative parts {dv:e})") });
                     }
